@@ -86,7 +86,8 @@ def containers(tier="quick"):
     return l1 + l2 + l3 + extra
 
 
-ORDER_POOL = [3, 1.5, "b", "a", "'", [1], ("set", [2]), -1, "A"]
+ORDER_POOL = [3, 1.5, "b", "a", "'", [1], ("set", [2]), -1, "A",
+              ("pat", "x"), True, None, ("map", [(1, 2)])]
 
 
 def hazard(p):
